@@ -25,14 +25,14 @@ TECH = ("explicit TLA+ L2 spec model-checked with TLC (safety + liveness) + spec
         "code + impl->spec TLC trace validation of recorded executions against the L2 spec and the TLA+ property monitors")
 
 CHECKS = [
-    ("C01", "JoinLike, Race, Merge, Zip, Chain, WaitUntil, Groups, CoStream, Nest",
+    ("C01", "JoinLike, Race, Merge, Zip, Chain, WaitUntil, Groups, CoStream, Nest, NestStream",
      "no lost wake-ups: parked / mid-poll / progress-at-quiescence obligations over every recorded execution, incl. fresh parent waker per poll, "
-     "stale and repeated wakes, wakes from other threads (thread mode: hang detection at quiescence), one level of nesting; plus the core of the "
+     "stale and repeated wakes, wakes from other threads (thread mode: hang detection at quiescence), one level of nesting (join in join, merge in merge as L2 specs; five more shapes on the code side); plus the core of the "
      "sub-waker protocol as an inductive invariant proved with TLAPS for every number of children (specs/tlaps/ReadinessProof.tla, 40 obligations) and "
      "discharged by Apalache with the ready counter for N <= 5 (specs/apalache/ReadinessProto.tla): unbounded polls and wake-ups.", "0, 7 (C01), 2, 5, 6"),
-    ("C02", "JoinLike, Race, Merge, Zip, Chain, WaitUntil, Groups, CoStream, Nest",
+    ("C02", "JoinLike, Race, Merge, Zip, Chain, WaitUntil, Groups, CoStream, Nest, NestStream",
      "exactly-once ownership: drop ledger (children, values, canaries) over executions with cancellation at every point and a panic injected at any child poll.", "7 (C02)"),
-    ("C03", "JoinLike, Race, Merge, Zip, Chain, WaitUntil, Groups, CoStream, Nest",
+    ("C03", "JoinLike, Race, Merge, Zip, Chain, WaitUntil, Groups, CoStream, Nest, NestStream",
      "poll discipline: no child poll after Ready/None, outside an owner's poll, after the final result (incl. one more poll after it where the type guards itself).", "7 (C03), 9"),
     ("C04", "JoinLike", "join: positional outputs, resolves exactly in the poll in which the last child resolves; zero children.", "7 (C04)"),
     ("C05", "JoinLike", "try_join: first observed error short-circuits in the same poll, nothing polled afterwards, sibling values dropped; Ok positional.", "7 (C05)"),
@@ -41,11 +41,11 @@ CHECKS = [
     ("C08", "Merge", "merge: each item exactly once in per-input order, yielded by the poll that took it; None exactly when all inputs ended; zero inputs.", "7 (C08), 8"),
     ("C09", "Zip", "zip: k-th row = k-th items; ends in the poll an input ends; at most one unmatched item per input, dropped not yielded.", "7 (C09)"),
     ("C10", "Chain", "chain: strictly sequential evaluation, nothing lost or reordered, None after the last input.", "7 (C10)"),
-    ("C11", "Groups", "FutureGroup: abstract keyed-set semantics (insert/remove/reserve/len/contains_key/capacity), slot reuse, exactly-once yield, None iff empty, refill.", "7 (C11)"),
-    ("C12", "Groups", "StreamGroup: keyed-set semantics, per-member item order, ended members dropped and forgotten in that poll, None iff no members.", "7 (C12)"),
+    ("C11", "Groups", "FutureGroup: abstract keyed-set semantics (insert/remove/reserve/extend/from_iter with exact, absent and over-estimated iterator size hints/len/contains_key/capacity), slot reuse, exactly-once yield, None iff empty, refill.", "7 (C11)"),
+    ("C12", "Groups", "StreamGroup: keyed-set semantics (incl. construction through FromIterator), per-member item order, ended members dropped and forgotten in that poll, None iff no members.", "7 (C12)"),
     ("C13", "CoStream", "for_each: every item exactly once, in-flight closure futures never exceed the limit, resolves only when drained, drop cancels in-flight futures.", "7 (C13)"),
     ("C14", "CoStream", "try_for_each / collect::<Result>: an error is never swallowed, nothing taken from the source afterwards, in-flight futures cancelled not completed.", "7 (C14), 9"),
-    ("C15", "CoStream", "adapters: collect = multiset of outputs, map exactly once per item, enumerate = source position, take(n) = first min(n,len) incl. n = 0 and n = usize::MAX.", "7 (C15), 8"),
+    ("C15", "CoStream", "adapters: collect = multiset of outputs, map exactly once per item, enumerate = source position, take(n) = first min(n,len) incl. n = 0 and n = usize::MAX; source streams with any valid size hint.", "7 (C15), 8"),
     ("C16", "JoinLike, Merge, Zip, Groups", "selective polling (std): a pending child is re-polled only after one of its (slot's) wakers fired.", "7 (C16)"),
     ("C17", "Merge", "merge fairness: an always-ready input is never starved for N consecutive yields (rotating start offset).", "7 (C17)"),
     ("C19", "WaitUntil", "wait_until (future and stream): inner untouched before the deadline resolves, deadline never polled afterwards, result = inner's from that very poll.", "7 (C19)"),
@@ -64,13 +64,13 @@ def main():
                    source_commits=[], add_only=True),
         engines=[dict(name="tla-l2-monitors", path="tools/check.py", serves_properties=[c[0] for c in CHECKS],
                       kind_free_text="TLC model checking of implementation-shaped TLA+ specifications (specs/JoinLike, Race, Merge, Zip, Chain, WaitUntil, "
-                                     "Groups, CoStream, Nest on specs/L2Env) with TLA+ property monitors (specs/Monitors) as invariants, liveness under fairness; "
+                                     "Groups, CoStream, Nest, NestStream on specs/L2Env) with TLA+ property monitors (specs/Monitors) as invariants, liveness under fairness; "
                                      "TLC-exported behaviours replayed on the real code by the Rust harness; recorded executions validated by TLC against the "
                                      "monitors (TraceMon) and against the L2 specs (Trace_<Module>)")],
         checks=[],
         notes="Verdicts come only from the TLA+ monitors rejecting a trace recorded from the real code (DESIGN.md 6). MODEL-DRIFT lines are informational. "
-              "known_findings.txt lists two defects repaired by fix: commits in /repo (d54302e, 4cd60bc). setup_cmd model-checks and exports every L2 module once; "
-              "the checks share those spec-only TLC results through a content-addressed cache (work/l2cache) and recompute them when any module changes.",
+              "known_findings.txt lists three defects repaired by fix: commits in /repo (d54302e, 4cd60bc, 675043b). setup_cmd model-checks and exports every L2 module once; "
+              "the checks share those spec-only TLC results through a content-addressed cache (work/l2cache) and recompute them when a module they depend on changes.",
         not_applicable=[dict(property_id="C18", reason="Send/Sync auto-trait preservation is a statement about the trait solver over all instantiations; it has no "
                              "state, transitions or traces for a TLA+ model or trace validation to decide (DESIGN.md 7, C18).")],
     )
